@@ -142,6 +142,12 @@ func SetNamespace(namespace string) error {
 		return ErrAlreadySet
 	}
 
+	// Check format. The namespace is prefixed to every metric ID and must
+	// itself be a valid start of a metric name.
+	if namespace != "" && !prometheusFormat.MatchString(namespace) {
+		return fmt.Errorf("metric namespace %q must match %s", namespace, PrometheusFormatRequirement)
+	}
+
 	metricNamespace = namespace
 	return nil
 }
